@@ -1,0 +1,18 @@
+//go:build verif
+
+package engine
+
+// VerifBeforeSend, when set, is called by every worker of the parallel parser just before it
+// delivers its result. A verification harness uses it to force a chosen arrival order.
+var VerifBeforeSend func(batchIndex int, numberOfBatches int)
+
+func verifBeforeSend(batchIndex int, numberOfBatches int) {
+	if VerifBeforeSend != nil {
+		VerifBeforeSend(batchIndex, numberOfBatches)
+	}
+}
+
+// VerifSplitIntoChunks exposes the chunking of the input text.
+func VerifSplitIntoChunks(txt string, numberOfBatches int) []string {
+	return splitIntoChunks(txt, numberOfBatches)
+}
